@@ -23,10 +23,7 @@ func VerifC20NewStreamWrapper(shard int64, stream proto.OxiaClient_WriteStreamCl
 	if onPanic == nil {
 		return &VerifC20SW{sw: newStreamWrapper(shard, stream)}
 	}
-	sw := &streamWrapper{
-		stream:          stream,
-		pendingRequests: nil,
-	}
+	sw := &streamWrapper{stream: stream}
 	go verifC20Guard("handle-response", onPanic, sw.handleResponses)
 	go verifC20Guard("handle-stream-closed", onPanic, sw.handleStreamClosed)
 	return &VerifC20SW{sw: sw}
